@@ -210,6 +210,12 @@ def _p7e(w):
     return (dict(kids=match(w.Q)(v=w.k[0], tags=match_any([w.kb[0]]))), (lambda o: OR([ok(q) for q in o.kids])), {"#count": (lambda o: SUM([B2I(ok(q)) for q in _distinct(o.kids)]))})
 
 
+@pattern("kids=match_any(Q)(v=k0, w=k1) (typed existential with two constraints)", needs=("kids",), veq_ok=False)
+def _p8t(w):
+    # ONE element has both values (how often an owner with several such elements is reported is not stated for the typed form)
+    return dict(kids=match_any(w.Q)(v=w.k[0], w=w.k[1])), (lambda o: OR([AND(EQ(q.v, w.k[0]), EQ(q.w, w.k[1])) for q in o.kids])), {"#any-multiplicity": True}
+
+
 @pattern("kids=match_any([q0])", needs=("kids",))
 def _p8(w):
     return dict(kids=match_any([w.pool[0]])), (lambda o: OR([w.same(q, w.pool[0]) for q in o.kids])), {}
@@ -287,6 +293,7 @@ def harness(name, N, veq, root_sub=False):
         kwargs, oracle, sels = f(w)
         # a nested match on a collection abbreviates a query over the flattened collection: one result per matching inner element
         count_fn = sels.pop("#count", None)
+        any_multiplicity = sels.pop("#any-multiplicity", False)
         root_type = MP2 if root_sub else w.P
         if sels:
             root = entity_selection(root_type, w.domain)
@@ -317,7 +324,9 @@ def harness(name, N, veq, root_sub=False):
         v["only-domain-elements-of-the-type"] = all(i >= 0 for i in rows)
         v["sound"] = AND([truth[i] for i in set(rows) if i >= 0]) if rows else True
         v["complete"] = AND([IMPLIES(truth[i], i in rows) for i in range(len(w.objs))])
-        if count_fn is None:
+        if any_multiplicity:
+            pass
+        elif count_fn is None:
             v["each-element-once"] = len(set(rows)) == len(rows)
         else:
             v["once-per-matching-inner-element"] = AND([EQ(rows.count(i), count_fn(o)) for i, o in enumerate(w.objs)])
